@@ -34,6 +34,7 @@ type exprEnv struct {
 	err    string
 	idxTerms []Term // index terms seen (candidates for quantifier patterns)
 	triggers [][]Term // explicit trigger(...) groups of the quantifier being translated
+	hypInst  []Term   // goal mode: index terms at which quantified hypotheses of the goal are instantiated
 	goalSk   []Term   // goal mode: constants used to skolemize positive single-int foralls
 	skNext   int
 	instAt   []Term   // assumption mode: also instantiate single-int foralls at these index terms (spec functions are inlined)
@@ -102,7 +103,10 @@ func (env *exprEnv) trGoal(x *Expr) typedTerm {
 	case "binary":
 		switch x.name {
 		case "==>":
+			saved := env.instAt
+			env.instAt = append(append([]Term{}, env.hypInst...), env.goalSk...)
 			a := env.tr(x.args[0])
+			env.instAt = saved
 			b := env.trGoal(x.args[1])
 			return typedTerm{t: implies(a.t, b.t), typ: tBool}
 		case "&&":
@@ -616,6 +620,13 @@ func (env *exprEnv) call(x *Expr) typedTerm {
 					env.pkg = save
 					return r
 				}
+			}
+			if c.pkgName == "strconv.Atoi" && len(argEs) == 1 {
+				g.libDep("strconv.Atoi#0")
+				a := env.tr(argEs[0]).t
+				v := typedTerm{t: "(L_strconv_Atoi_0 " + a + ")", typ: tInt}
+				er := typedTerm{t: "(L_strconv_Atoi_1 " + a + ")", typ: types.Universe.Lookup("error").Type()}
+				return typedTerm{t: v.t, typ: v.typ, tup: []typedTerm{v, er}}
 			}
 			if sig, ok := libSigs[c.pkgName]; ok {
 				g.libDep(c.pkgName)
